@@ -363,6 +363,9 @@ RENAME_POOL = [
     "", " ", "A*", "a b", "\"q\"", "back\\slash", "{}", "{0}", "{{", "nul\0in", "é", "日本", "ß",
     "tab\there", "new\nline", "x" * 300, "None", "Some", "self", "r#type", "'", "0", "-1",
     "A", "B", "a", "Aa", "AA", "é", "é", "\U0001F600",
+
+    # names of generated items (default and the custom names the corpus uses)
+    "MIN", "MAX", "FIRST", "LAST", "iter", "next", "as_str", "__MIN", "__NAME", "into", "names",
 ]
 
 
